@@ -42,6 +42,11 @@ def make_reply(code, text, mode):
         r.message = text
         r.code = code
         return r
+    if mode == 'nlfirst':
+        # an asynchronous reply (like the predefined 421 on timeout): an empty line is sent first
+        r = Reply(code, text)
+        r.newline_first = True
+        return r
     r = Reply(code, text)
     if mode == 'disabled':
         r.enhanced_status_code = False
@@ -146,10 +151,12 @@ def classify(data):
         if line.endswith(b'\r'):
             line = line[:-1]
         pos = nl + 1
+        if line == b'' and code is None:
+            continue            # empty lines before a reply: the library itself sends one in front of asynchronous replies (421 on timeout)
         m = REF_LINE.match(line)
+        if not m and re.match(br'^\d\d\d$', line):
+            m = REF_LINE.match(line + b' ')     # the bare code: Reply-code [ SP textstring ] CRLF
         if not m:
-            if re.match(br'^\d\d\d$', line):
-                return 'gray', None
             return 'invalid', None
         if code is not None and m.group(1) != code:
             return 'invalid', None
@@ -184,7 +191,7 @@ def judge_malformed(data, cuts=()):
             left = io.recv_buffer + sock.unread()
             if left != data[consumed:]:
                 out.append(('C17:malformed-consumption', '%r left %r' % (data, left)))
-            if got[0].encode() != data[:3]:
+            if got[0].encode() != data.lstrip(b'\r\n')[:3]:
                 out.append(('C17:malformed-code', '%r -> %r' % (data, got)))
             # the Reply object: a code that is not a reply code must be a bad reply, nothing else
             sock2 = ScriptedSocket(cut(data, cuts))
@@ -288,7 +295,7 @@ def roundtrip_case(draw):
     replies = []
     for _ in range(n):
         text = draw(reply_text())
-        mode = draw(st.sampled_from(['auto', 'auto', 'disabled', 'late:250', 'late:451', 'late:550', 'msgfirst']))
+        mode = draw(st.sampled_from(['auto', 'auto', 'disabled', 'late:250', 'late:451', 'late:550', 'msgfirst', 'nlfirst']))
         if mode == 'disabled' and ESC_LOOK.match(text):
             mode = 'auto'
         replies.append((draw(_codes), text, mode))
@@ -373,7 +380,7 @@ def replay(case):
             return []
         if mode == 'disabled' and ESC_LOOK.match(text):
             return []
-        if mode not in ('auto', 'disabled', 'msgfirst') and not re.match(r'^late:[2345]\d\d$', mode):
+        if mode not in ('auto', 'disabled', 'msgfirst', 'nlfirst') and not re.match(r'^late:[2345]\d\d$', mode):
             return []
     return judge_roundtrip(replies, sorted(set(int(c) for c in case.get('cuts', []))))
 
